@@ -3,7 +3,7 @@ EXTENDS PyAssist, Json
 
 MCNames == {"va", "vb", "w"}
 MCHOrder == <<"va", "vb", "w">>
-MCAllKinds == {"bind", "bindu", "use", "def", "class", "attr", "ret", "pass", "imp", "kw", "try", "fin", "if", "els"}
+MCAllKinds == {"bind", "bindu", "use", "def", "class", "attr", "ret", "pass", "imp", "kw", "try", "fin", "if", "els", "tup"}
 \* focus: unfinished try: blocks above keyword-argument calls (names bound by def only)
 MCTryKinds == {"use", "def", "ret", "pass", "kw", "try", "fin"}
 MCNoPrelude == {<<>>}
@@ -19,6 +19,10 @@ MCTryPreludes ==
 MCIfPreludes == {<<Line(0, "def", "va", "w"), Line(1, "bind", "vb", ""), Line(1, "if", "", "")>>,
                  <<Line(0, "class", "w", ""), Line(1, "def", "va", "vb"), Line(2, "if", "", "")>>}
 MCIfFocusKinds == {"use", "pass", "els"}
+\* focus: a line that ends in a name bound to a function, followed by comma-separated names without
+\* any bracket (no call is open there: no keyword argument can be meant)
+MCTupPreludes == {<<Line(0, "def", "va", "vb"), Line(1, "pass", "", ""), Line(0, "bindu", "w", "va")>>}
+MCTupFocusKinds == {"tup", "pass"}
 MCTryFocusKinds == {"use", "pass", "kw", "fin"}
 \* focus: imports (and the bindings they compete with)
 MCImpKinds == {"bind", "use", "def", "class", "pass", "imp"}
